@@ -8,6 +8,7 @@ import (
 	"encoding/json"
 	"fmt"
 	"os"
+	"os/exec"
 	"sort"
 	"strings"
 
@@ -167,7 +168,8 @@ func fp(v object.PanObject, depth int, sb *strings.Builder) {
 	case *object.PanFunc:
 		fmt.Fprintf(sb, "Fn%p:%s", x, x.Inspect())
 	case *object.PanErrWrapper:
-		fmt.Fprintf(sb, "EW%p:%s:%s^%p", x, x.ErrKind, x.Msg, x.Proto())
+		// an error VALUE also holds its stack trace (what an uncaught raise of it prints): part of what it contains
+		fmt.Fprintf(sb, "EW%p:%s:%s:%q^%p", x, x.ErrKind, x.Msg, x.StackTrace, x.Proto())
 	case *object.PanErr:
 		fmt.Fprintf(sb, "Er%p:%s:%s", x, x.ErrKind, x.Msg)
 	default:
@@ -729,6 +731,7 @@ func gen(h *hrunner, thorough bool, emit func(tcase)) {
 	}
 	// names first used after a value that holds an equal-keyed name exists; strs used as range bounds / stepped
 	for _, op := range []string{"t1 := 'lwvgwfgDAyorc", "t1 := {lwvgwfgDAyorc: 2}", "t1 := {**oc, lwvgwfgDAyorc: 3}", "t1 := \"lwvgwfgDAyorc: 5\".evalEnv", "t1 := oc.lwvgwfgDAyorc",
+		"t1 := nil.try.{|u| raise ew}.err", "t1 := nil.try.{|u| {|| {|| raise ew}()}()}.err", "t1 := nil.try.{|u| raise ew if true}.err", "t1 := [1, 2]@{|i| nil.try.{|u| raise ew}.err?}", "t1 := nil.try.{|u| ew.abandon}.err?", "t1 := e.abandon",
 		"t1 := (s:\"abf\").A", "t1 := (s:\"abf\")._iter.next", "t1 := s._incBy(1)", "t1 := s._incBy(2)", "t1 := (\"abb\":s).A", "t1 := (s:\"abz\":3).A", "t1 := su._incBy(1)", "t1 := (su:su).A", "t1 := [s, su]@_incBy(1)"} {
 		emit(tcase{Ops: []string{op}})
 		emit(tcase{Ops: []string{op, op}})
@@ -876,7 +879,41 @@ func sharesOperand(o1, o2 string) bool {
 
 func containsWord(s, w string) bool { return replaceWord(s, w, "\x00") != s }
 
+// Lines read from standard input are str values like any other: a line that is kept (in a variable, an array, as a map
+// key) while the program goes on reading - past every buffer size a reader might use - stays what it was.
+func runStdin(c *core.Ctx) {
+	if c.Shard != 0 {
+		return
+	}
+	for _, n := range []int{3, 120, 400, 3000} {
+		var in strings.Builder
+		for i := 1; i <= n; i++ {
+			fmt.Fprintf(&in, "record %04d payload-%04d-abcdefghij\n", i, i)
+		}
+		first := "record 0001 payload-0001-abcdefghij"
+		for _, prog := range []string{
+			"first := <>.S\nkept := [first]\nm := %{first: 1}\nrest := <>.A\n[first, kept[0], m.keys[0], first == kept[0], first.len, rest.len].p",
+			"first := <>.S\nkept := [first]\nm := %{first: 1}\nrest := <>@{|l| l.len}\n[first, kept[0], m.keys[0], first == \"" + first + "\", first.len, rest.len].p",
+			"ls := <>@{|l| l}\n[ls[0], ls.first, ls[0] + \"\", ls[0] == \"" + first + "\", ls[0].len, ls.len - 1].p",
+		} {
+			cmd := exec.Command("timeout", "60", os.Getenv("PANMC_CLI"), "-e", prog)
+			cmd.Stdin = strings.NewReader(in.String())
+			outb, _ := cmd.Output()
+			got := strings.TrimSpace(string(outb))
+			c.Eval(1)
+			c.Validated(1)
+			c.Nontrivial(1)
+			want := fmt.Sprintf("[%q, %q, %q, true, %d, %d]", first, first, first, len(first), n-1)
+			c.Outcome("stdin:" + map[bool]string{true: "ok", false: "differs"}[got == want])
+			if got != want {
+				c.Violation(core.Violation{Key: "line-read-from-stdin-changes-while-reading-on", Case: core.JSON(tcase{Fam: "stdin", Ops: []string{prog, fmt.Sprint(n)}}), Desc: fmt.Sprintf("%d input lines; %s", n, strings.ReplaceAll(prog, "\n", "; ")), Expected: want, Observed: got})
+			}
+		}
+	}
+}
+
 func run(c *core.Ctx) {
+	runStdin(c)
 	h := newRunner(c)
 	if h == nil {
 		return
@@ -909,6 +946,10 @@ func replay(c *core.Ctx, raw json.RawMessage) {
 		return
 	}
 	c.Eval(1)
+	if t.Fam == "stdin" {
+		runStdin(c)
+		return
+	}
 	if t.Fam == "closure" {
 		h.runClosure(t)
 		return
